@@ -86,6 +86,38 @@ def _state(fs):
     return sp, payload
 
 
+def _launder_case(victims, kind, off, cls, with_cache):
+    """update_cache() in a fresh session after the damage: whatever it does (raise or succeed), neither the in-memory nor the persistent
+    cache may afterwards hand out a state point that does not hash to its id (same damage on a freshly built project)"""
+    s = _build(with_cache)
+    fs = s.fs
+    problems = []
+    try:
+        for i in range(3):
+            if victims >> i & 1:
+                _damage(fs, i, kind, off + i, cls)
+        sp, _ = _state(fs)
+        pu = memfs.mkproject(fs)
+        try:
+            pu.update_cache()
+        except Exception:  # noqa
+            pass
+        for sess in (pu, memfs.mkproject(fs)):
+            for d in sp:
+                try:
+                    got = sess.open_job(id=d).statepoint()
+                    if refs.canon_id(got) != d:
+                        problems.append(("after update_cache(): open_job(id) yields a state point that does not hash to the id", d, got))
+                    cs = dict(sess.open_job(id=d).cached_statepoint)
+                    if refs.canon_id(cs) != d:
+                        problems.append(("after update_cache(): cached_statepoint does not hash to the id", d, cs))
+                except Exception:  # noqa
+                    pass
+    finally:
+        s.close()
+    return problems
+
+
 def _case(victims, kind, off, cls, with_cache, do_repair):
     s = _build(with_cache)
     fs = s.fs
@@ -119,33 +151,8 @@ def _case(victims, kind, off, cls, with_cache, do_repair):
                         problems.append(("open_job(id) accepted a state point that does not hash to the id", d, got))
                 except Exception:  # noqa  -- raising (JobsCorruptedError, KeyError, UnicodeDecodeError ...) is "not yielding a state point"
                     pass
-        # update_cache() in a fresh session after the damage: whatever it does (raise or succeed), neither the in-memory nor the
-        # persistent cache may afterwards hand out a state point that does not hash to its id
-        snap_fs = None
-        if not isinstance(fs, memfs.RealFS):
-            import vflib.memfs as _m
-            f2 = _m.MemFS()
-            f2.ino, f2.tree, f2.mtime, f2.next_ino, f2.clock = dict(fs.ino), dict(fs.tree), dict(fs.mtime), fs.next_ino, fs.clock
-            _m.install(f2)
-            try:
-                pu = _m.mkproject(f2)
-                try:
-                    pu.update_cache()
-                except Exception:  # noqa
-                    pass
-                for sess in (pu, _m.mkproject(f2)):
-                    for d in sp:
-                        try:
-                            got = sess.open_job(id=d).statepoint()
-                            if refs.canon_id(got) != d:
-                                problems.append(("after update_cache(): open_job(id) yields a state point that does not hash to the id", d, got))
-                            cs = dict(sess.open_job(id=d).cached_statepoint)
-                            if refs.canon_id(cs) != d:
-                                problems.append(("after update_cache(): cached_statepoint does not hash to the id", d, cs))
-                        except Exception:  # noqa
-                            pass
-            finally:
-                _m.install(fs)
+        problems += _launder_case(victims, kind, off, cls, with_cache)
+        memfs.install(fs)    # the nested simulator un-installed the environment stubs on exit
         if do_repair and not problems:
             known = {refs.canon_id(x) for x in SPS} if with_cache else set()
             pr3 = memfs.mkproject(fs)
